@@ -88,12 +88,13 @@ def wr(harness, picks, params, labels, covers=(), tiers=("quick", "thorough"), t
 
 
 def wr_seq(labels):
-    return [wr("VerifWrSeq", {"setting": 5}, {"K": 3, "W": 16}, labels, ["close", "flush"], thorough={"K": 4}),
-            wr("VerifWrSeq", {"setting": 6}, {"K": 3, "W": 16}, labels, ["close", "flush"], thorough={"K": 4}),
-            wr("VerifWrSeq", {"setting": 0}, {"K": 2, "W": 16}, labels, ["close", "flush"], thorough={"K": 3}),
-            wr("VerifWrSeq", {"setting": 3}, {"K": 2, "W": 16}, labels, ["close", "flush"], thorough={"K": 3}),
-            wr("VerifWrSeq", {"setting": 1}, {"K": 2, "W": 16}, labels, ["close", "flush"], tiers=["thorough"]),
-            wr("VerifWrSeq", {"setting": 4}, {"K": 2, "W": 16}, labels, ["close", "flush"], tiers=["thorough"])]
+    return [wr("VerifWrSeq", {"setting": 5}, {"K": 3, "W": 16, "HUGE": 0}, labels, ["close", "flush"], thorough={"K": 4}),
+            wr("VerifWrSeq", {"setting": 5}, {"K": 2, "W": 16, "HUGE": 1}, labels, ["close", "flush", "huge"], thorough={"K": 3}),
+            wr("VerifWrSeq", {"setting": 6}, {"K": 3, "W": 16, "HUGE": 0}, labels, ["close", "flush"], thorough={"K": 4}),
+            wr("VerifWrSeq", {"setting": 0}, {"K": 2, "W": 16, "HUGE": 0}, labels, ["close", "flush"], thorough={"K": 3}),
+            wr("VerifWrSeq", {"setting": 3}, {"K": 2, "W": 16, "HUGE": 0}, labels, ["close", "flush"], thorough={"K": 3}),
+            wr("VerifWrSeq", {"setting": 1}, {"K": 2, "W": 16, "HUGE": 0}, labels, ["close", "flush"], tiers=["thorough"]),
+            wr("VerifWrSeq", {"setting": 4}, {"K": 2, "W": 16, "HUGE": 0}, labels, ["close", "flush"], tiers=["thorough"])]
 
 
 def kernels(labels, which):
@@ -116,7 +117,7 @@ def kernels(labels, which):
 
 
 CHECKS.update({
-    "C16": {"level": "model_checking", "runs": wr_seq(["C16:"]) + [wr("VerifStdAutomaton", {}, {"K": 3}, ["REF:"])],
+    "C16": {"level": "model_checking", "runs": wr_seq(["C16:", "C01:"]) + [wr("VerifStdAutomaton", {}, {"K": 3}, ["REF:"])],
             "assumptions": ["operation sequences of length K over {Write(0), Write(5), Write(> internal buffer), Flush, Close, Reset}: each operation is a symbolic value case-split by the solver; data is a fixed pseudo-random pattern (the property is about call sequences, not content)",
                             "expected error-ness per call = automaton open/closed of compress/flate's Writer, itself checked against the real stdlib Writer executed by the engine (VerifStdAutomaton)",
                             "settings 5/6 use the internal constructor NewDynCompressor with window W=16: the same parametric Accumulate/compress code at a size where filling the buffer costs 300 bytes instead of 8K/64K"]},
@@ -129,9 +130,10 @@ CHECKS.update({
     "C19": {"level": "model_checking", "runs": kernels(["C19:"], ["dist", "lz77"]) + [r for r in wr_seq(["C19:"]) if r["picks"]["setting"] in (3, 4, 5)],
             "assumptions": ["one lz77 step from an arbitrary state: D <= historySize for historySize in {8, 4096, 32768}; positions may have wrapped (processed up to 2^18)"]},
     "C14": {"level": "model_checking",
-            "runs": [wr("VerifWrFail", {"setting": st}, {"K": 3, "W": 16, "KMAX": km}, ["C14:"], ["failure-reported", "op-after-failure"], thorough={"K": 4})
-                     for (st, km) in [(5, 6), (6, 6), (0, 4), (3, 4)]],
-            "assumptions": ["destination model: fails at its k-th call (k symbolic) with a distinct error value and keeps failing"]},
+            "runs": [wr("VerifWrFail", {"setting": st, "recover": rc}, {"K": 3, "W": 16, "KMAX": km, "HUGE": 0}, ["C14:"], ["failure-reported", "op-after-failure"], thorough={"K": 4})
+                     for (st, km) in [(5, 6), (6, 6), (0, 4), (3, 4)] for rc in (0, 1)] +
+                    [wr("VerifWrFail", {"setting": 5, "recover": rc}, {"K": 2, "W": 16, "KMAX": 8, "HUGE": 1}, ["C14:"], ["failure-reported", "huge"], thorough={"K": 3}) for rc in (0, 1)],
+            "assumptions": ["destination model: fails at its k-th call (k symbolic) with a distinct error value, then either keeps failing or recovers (accepts data again)"]},
     "C12": {"level": "model_checking",
             "runs": [wr("VerifWrReset", {"setting": st, "oldfails": of}, {"K1": 2, "K2": 2, "W": 16}, ["C12:"], ["compared"], thorough={"K1": 3})
                      for st in (5, 6, 0) for of in (0, 1)],
